@@ -281,7 +281,11 @@ impl<const N: usize> CdrDeserialize for [u8; N] {
 impl CdrDeserialize for String {
     fn cdr_deserialize<'a>(de: &mut CdrDeserializer<'a>) -> CdrResult<Self> {
         let length = UnsignedLong::cdr_deserialize(de)?;
-        let character_data = de.read_bytes(length as usize - 1)?.to_vec();
+        // the length counts the terminating 0, so 0 is not a valid string length
+        let character_length = (length as usize)
+            .checked_sub(1)
+            .ok_or(CdrError::InvalidData)?;
+        let character_data = de.read_bytes(character_length)?.to_vec();
         Octet::cdr_deserialize(de)?; // 0-termination
         String::from_utf8(character_data).map_err(|_| CdrError::InvalidData)
     }
